@@ -9,6 +9,7 @@ import importlib
 import itertools
 
 from symx.core import AND, OR, NOT, IMPLIES, ITE, IFF, SNum, SBool, ssum, INF
+from symx.stubs import namer
 
 PROPERTY = "C11"
 FILES = ["solvor/dijkstra.py", "solvor/a_star.py", "solvor/bfs.py", "solvor/bellman_ford.py", "solvor/floyd_warshall.py",
@@ -18,7 +19,7 @@ FUNCTIONS = ["solvor.dijkstra.dijkstra", "solvor.dijkstra.dijkstra_edges[python]
              "solvor.floyd_warshall.floyd_warshall[python]", "solvor.utils.helpers.reconstruct_path"]
 BOUNDS = {
     "quick": "dijkstra/bfs/dfs: potential graph = complete digraph on 4 nodes (astar: 8 potential arcs on 4 nodes incl. a direct and a "
-             "back arc) + an 8-arc variant with duplicate arcs and a self loop, string labels, goal as predicate, arc presence symbolic Bools read lazily, weights unbounded non-negative Reals, astar "
+             "back arc) + an 8-arc variant with duplicate arcs and a self loop, unorderable hashable node labels (strings in the max_iter family), goal as predicate, arc presence symbolic Bools read lazily, weights unbounded non-negative Reals, astar "
              "heuristic = ANY consistent function (symbolic h(v)), max_cost / max_iter symbolic; bellman_ford / floyd_warshall / "
              "dijkstra_edges: every arc set on 3 nodes (incl. self loops: 2^9) is too many, so: all 64 loop-free arc sets on 3 nodes + "
              "12 named topologies on 3-4 nodes with self loops / duplicate arcs + (floyd_warshall) every labelling of a 3-arc path through 4 nodes with and without shortcut, weights unbounded Reals of any sign; astar_grid: every "
@@ -94,7 +95,7 @@ def reach(n, arcs, src):
 class G:
     def __init__(self, s, n, arcs, sym_presence, wkind, labels=False):
         self.n, self.arcs = n, arcs
-        self.name = (lambda u: "v%d" % u) if labels else (lambda u: u)
+        self.name = namer(labels, "v")
         self.inv = {self.name(u): u for u in range(n)}
         self.p = [s.bool("p%d" % k) if sym_presence else True for k in range(len(arcs))]
         if wkind == "nonneg":
@@ -442,7 +443,7 @@ def items(tier, rng):
         out.append({"name": algo + "_k4", "harness": "h_search", "split": 10,
                     "params": {"algo": algo, "n": 4, "arcs": A8 if (q and heavy) else K4, "src": 0, "dst": 3}})
         out.append({"name": algo + "_k4dirty", "harness": "h_search", "split": 10,
-                    "params": {"algo": algo, "n": 4, "arcs": DIRTY8 if q else K4_DIRTY, "src": 0, "dst": 3, "labels": True, "goal_pred": True}})
+                    "params": {"algo": algo, "n": 4, "arcs": DIRTY8 if q else K4_DIRTY, "src": 0, "dst": 3, "labels": "opaque", "goal_pred": True}})
     K3 = [(u, v) for u in range(3) for v in range(3) if u != v]
     for algo in ("dijkstra", "astar"):
         out.append({"name": algo + "_k3_maxcost", "harness": "h_search", "split": 5,
@@ -451,7 +452,7 @@ def items(tier, rng):
                     "params": {"algo": algo, "n": 4, "arcs": NAMED_EDGE["diamond4"][1] + [(3, 0)], "src": 0, "dst": 3, "use_max_cost": True}})
     for algo in ("dijkstra", "astar", "bfs", "dfs"):
         out.append({"name": algo + "_k3_maxiter", "harness": "h_search",
-                    "params": {"algo": algo, "n": 3, "arcs": K3, "src": 0, "dst": 2, "use_max_iter": True}})
+                    "params": {"algo": algo, "n": 3, "arcs": K3, "src": 0, "dst": 2, "use_max_iter": True, "labels": "str"}})
     for algo in ("bfs", "dfs"):
         out.append({"name": algo + "_explore_k4", "harness": "h_explore", "split": 5, "params": {"algo": algo, "n": 4, "arcs": K4, "src": 0}})
     # fixed-topology, symbolic-weight solvers
